@@ -224,6 +224,9 @@ class BaseFileLock(abc.ABC):
 
         self._decrement_lock_counter()
 
+        # Levels of the thread lock to release: all of them when forced
+        levels = 1 + (self._lock_counter if force else 0)
+
         if self._lock_counter == 0 or force:
             lid = id(self)
             fn = self._lock_file
@@ -238,7 +241,8 @@ class BaseFileLock(abc.ABC):
                 _logger.info('Lock %s released on %s', lid, fn)
 
         try:
-            self._thread_lock.release()
+            for _ in range(levels):
+                self._thread_lock.release()
         except RuntimeError:  # not reentrant and already unlocked
             pass
 
